@@ -5,6 +5,7 @@
 package kfdemo
 
 import (
+	"fmt"
 	"bytes"
 	"encoding/json"
 	"errors"
@@ -222,3 +223,16 @@ func TestKF15RedirectInvalidLevel(t *testing.T) {
 
 var _ = errors.New
 var _ = strings.ToUpper
+
+// KF-11 is an OPEN finding (recorded, not repaired): this test passes while the
+// deviation is present and documents the failing input.
+func TestKF11OpenInfofEmptyTemplate(t *testing.T) {
+	core, logs := observer.New(zapcore.DebugLevel)
+	zap.New(core).Sugar().Infof("", 1)
+	got := logs.All()[0].Message
+	want := fmt.Sprintf("", 1) //nolint:govet
+	if got == want {
+		t.Fatalf("KF-11 no longer reproduces (message %q): remove it from known_findings.json", got)
+	}
+	t.Logf("KF-11: Infof(\"\", 1) logs %q, fmt.Sprintf(\"\", 1) is %q", got, want)
+}
